@@ -8,8 +8,9 @@ PID = "C01"
 TRUSTED = ["spec S_LhNew.v (LZ77 semantics, canonical codes, stream descriptions, serialiser) run extracted",
            "C driver harness/c/drv_dec.c"]
 ASSUMPTIONS = ["valid stream = serialise_stream of a description that satisfies wf_stream",
-               "the round-trip statement itself is decided by the direct oracle (C vs spec expansion) and the correspondence; "
-               "the Coq side proves the never-fault and tree/bit-reader lemmas it rests on (see Properties_C01.v)"]
+               "theorem lhnew_roundtrip (all six instances, any block partition / table form / read schedule) is about the model "
+               "LhNew.v; the tie to the C is this run's correspondence (C output = spec expansion = model output) and the regenerated "
+               "per-decoder constants; model fuel bounds the input at 2^27 bytes"]
 
 
 def build(cb):
